@@ -63,6 +63,7 @@ func opTerm(op int32) string {
 }
 
 func momentTerm(trigger string) string {
+	trigger = strings.TrimSuffix(trigger, negSuffix) // the model knows moments, not weights
 	switch {
 	case trigger == "DESTROY":
 		return "MDestroy"
@@ -448,6 +449,7 @@ func relevantFaults(r *gen.Rand, s string, q reqIn) faults {
 	var bodies []string
 	addEv := func(ev, src string) {
 		cands = append(cands, "before_"+ev, "leave_"+src, "enter_"+evDst[ev], "after_"+ev)
+		cands = append(cands, "before_"+ev+negSuffix, "leave_"+src+negSuffix, "enter_"+evDst[ev]+negSuffix, "after_"+ev+negSuffix)
 		if ev != "GO_ERROR" {
 			bodies = append(bodies, ev)
 		}
@@ -637,6 +639,13 @@ func fsmInputs() []fsmIn {
 			out = append(out, fsmIn{St: st, Ev: ev, Faults: faults{Bodies: []string{ev}}})
 			out = append(out, fsmIn{St: st, Ev: ev, Faults: faults{Hooks: []string{"enter_" + d}}})
 			out = append(out, fsmIn{St: st, Ev: ev, Faults: faults{Hooks: []string{"after_" + ev}}})
+			// the same failures in the negative-weight pass, and in both passes of enter_ / after_
+			out = append(out, fsmIn{St: st, Ev: ev, Faults: faults{Hooks: []string{"before_" + ev + negSuffix}}})
+			out = append(out, fsmIn{St: st, Ev: ev, Faults: faults{Hooks: []string{"leave_" + st + negSuffix}}})
+			out = append(out, fsmIn{St: st, Ev: ev, Faults: faults{Hooks: []string{"enter_" + d + negSuffix}}})
+			out = append(out, fsmIn{St: st, Ev: ev, Faults: faults{Hooks: []string{"after_" + ev + negSuffix}}})
+			out = append(out, fsmIn{St: st, Ev: ev, Faults: faults{Hooks: []string{"enter_" + d, "enter_" + d + negSuffix}}})
+			out = append(out, fsmIn{St: st, Ev: ev, Faults: faults{Hooks: []string{"after_" + ev, "after_" + ev + negSuffix}}})
 		}
 	}
 	return out
@@ -1295,6 +1304,28 @@ func main() {
 		} {
 			cases = append(cases, wrap(w.caseConc(in)))
 		}
+		// 0d. every way a requested transition can fail ends in ERROR: a critical hook failing in the
+		// negative-weight pass of enter_ / after_ / before_ / leave_, alone and together with the other pass
+		cases = append(cases, wrap(w.caseSeq(seqIn{Create: "hook", Steps: []stepIn{
+			{Req: reqIn{Kind: "control", Op: 6}},
+			{Req: reqIn{Kind: "control", Op: 3}, Faults: faults{Hooks: []string{"enter_CONFIGURED" + negSuffix}}},
+		}})))
+		cases = append(cases, wrap(w.caseSeq(seqIn{Create: "hook", Steps: []stepIn{
+			{Req: reqIn{Kind: "control", Op: 6}, Faults: faults{Hooks: []string{"after_DEPLOY" + negSuffix}}},
+		}})))
+		cases = append(cases, wrap(w.caseSeq(seqIn{Create: "hook", Steps: []stepIn{
+			{Req: reqIn{Kind: "control", Op: 6}}, {Req: reqIn{Kind: "control", Op: 3}},
+			{Req: reqIn{Kind: "control", Op: 1}, Faults: faults{Hooks: []string{"enter_RUNNING", "enter_RUNNING" + negSuffix}}},
+		}})))
+		cases = append(cases, wrap(w.caseSeq(seqIn{Create: "hook", Steps: []stepIn{
+			{Req: reqIn{Kind: "control", Op: 6}, Faults: faults{Hooks: []string{"before_DEPLOY" + negSuffix}}},
+		}})))
+		cases = append(cases, wrap(w.caseSeq(seqIn{Create: "hook", Steps: []stepIn{
+			{Req: reqIn{Kind: "control", Op: 6}},
+			{Req: reqIn{Kind: "control", Op: 3}, Faults: faults{Hooks: []string{"leave_DEPLOYED" + negSuffix}}},
+		}})))
+		cases = append(cases, wrap(w.caseConc(concIn{Pre: []int32{6}, Holder: reqIn{Kind: "control", Op: 3}, Gate: "before_CONFIGURE",
+			Callers: []reqIn{{Kind: "control", Op: 3}}, Faults: faults{Hooks: []string{"enter_CONFIGURED" + negSuffix}}})))
 		// 0c. what ControlEnvironment does must not depend on the caller's context: failing,
 		// illegal and successful transitions requested by callers that give up
 		cases = append(cases, wrap(w.caseSeq(seqIn{Create: "hook", Steps: []stepIn{
